@@ -23,7 +23,7 @@ func init() { core.Register(c17{}) }
 func (c17) ID() string    { return "C17" }
 func (c17) Level() string { return "exploration" }
 func (c17) Rule() string {
-	return "seeded configuration values: integers of any magnitude (0, +-1, 2^31, 2^53+1, MaxInt64, MinInt64, random), floats, booleans, strings from a hostile alphabet (number-like 007 / 1.10 / +5 / 1e3, boolean-like TRUE / false, quoted 'x' / \"x\", bracketed [a,b] / {} / map[a:b], empty, with spaces / colons / leading blanks, plain), lists of ints / strings (hostile strings inside), nested string->string and string->int maps, structs with yaml tags; each value is marshalled to a YAML document by the generator, loaded by the real container and bound to reflect.StructOf holders three ways, one start each: prefix:\"k\" (typed expectation from the generator's own tree), value:\"${k}\" and prop:\"k\" (must equal the prefix-bound twin), into every compatible concretely typed target (scalar, pointer to scalar, []int / []int64 / []string, map[string]string / map[string]int, struct, *struct). Literals: value:\"<lit>\" into string / int / bool / float targets must be bound as written (strings byte-identical). non-trivial = hostile string, integer beyond 2^53, or a collection; distinct = (value, target type, path kind); own-copy family (a holder changing its map[string]any / []any bound data must not change what later bindings and Get deliver) and retried family (placeholder / prop / prefix bindings of one key after 0-2 failed attempts and Set changes); mapper family (mapper=json next to default bindings, in one holder and in a later start); in a quarter of the main cases the last key segment is selected by a placeholder (configured, or falling back to its default) in all three forms; explicitPrefix family; viaArgs family (command-line values with '='); composite family (value tags assembled from several placeholders); memberCase family (struct members whose keys are spelled in another case in map / JSON literals, placeholder defaults and mappings inside configured lists); keys spelled in another case in the tags; dotted map keys; multi-line strings ending the document; floats with exponents bound to strings; embeddedMember family; jsonLooking family (JSON-looking strings on untyped targets); statefulPrefix family (a prefix depending on the held instance)"
+	return "seeded configuration values: integers of any magnitude (0, +-1, 2^31, 2^53+1, MaxInt64, MinInt64, random), floats, booleans, strings from a hostile alphabet (number-like 007 / 1.10 / +5 / 1e3, boolean-like TRUE / false, quoted 'x' / \"x\", bracketed [a,b] / {} / map[a:b], empty, with spaces / colons / leading blanks, plain), lists of ints / strings (hostile strings inside), nested string->string and string->int maps, structs with yaml tags; each value is marshalled to a YAML document by the generator, loaded by the real container and bound to reflect.StructOf holders three ways, one start each: prefix:\"k\" (typed expectation from the generator's own tree), value:\"${k}\" and prop:\"k\" (must equal the prefix-bound twin), into every compatible concretely typed target (scalar, pointer to scalar, []int / []int64 / []string, map[string]string / map[string]int, struct, *struct). Literals: value:\"<lit>\" into string / int / bool / float targets must be bound as written (strings byte-identical). non-trivial = hostile string, integer beyond 2^53, or a collection; distinct = (value, target type, path kind); own-copy family (a holder changing its map[string]any / []any bound data must not change what later bindings and Get deliver) and retried family (placeholder / prop / prefix bindings of one key after 0-2 failed attempts and Set changes); mapper family (mapper=json next to default bindings, in one holder and in a later start); in a quarter of the main cases the last key segment is selected by a placeholder (configured, or falling back to its default) in all three forms; explicitPrefix family; viaArgs family (command-line values with '='); composite family (value tags assembled from several placeholders); memberCase family (struct members whose keys are spelled in another case in map / JSON literals, placeholder defaults and mappings inside configured lists); keys spelled in another case in the tags; dotted map keys; multi-line strings ending the document; floats with exponents bound to strings; embeddedMember family; jsonLooking family (JSON-looking strings on untyped targets); statefulPrefix family (a prefix depending on the held instance); optionalGap family (an optional unconfigured prefix among configured ones)"
 }
 func (c17) Assumptions() []string {
 	return []string{
